@@ -105,8 +105,9 @@ def part_passive_gates(ctx, pq, quick, rng):
         inputs = L.inputs(d, 3, rng=rng, size=nin)
         recs = explore(ctx, d, gates, inputs, depth)
         ctx.notes.setdefault("explorations", []).append({"d": d, "gates": [g["name"] + str(g["modes"]) for g in gates], "inputs": inputs, "depth": depth, "tangents_exported": len(recs)})
-        if quick and len(recs) > 36:
-            recs = rng.sample(recs, 36)
+        cap = 36 if quick else 220
+        if len(recs) > cap:
+            recs = rng.sample(recs, cap)
         for k, rec in enumerate(recs):
             inp, idx, mstep, pk, amp, damp = decode(rec)
             n = sum(inp)
@@ -194,7 +195,7 @@ def part_active_gates(ctx, pq, quick, rng):
     from .. import gaussian_replay as GR
     from . import c09
     counters = ctx.notes.setdefault("active_gates", {"programs": 0, "tf.jacobian": 0, "tf.gradient": 0, "jax": 0, "unsupported": 0})
-    for d, depth, cutoff, nprog in ((2, 2, 6, 8 if quick else 60), (3, 3, 5, 8 if quick else 60)):
+    for d, depth, cutoff, nprog in ((2, 2, 6, 8 if quick else 36), (3, 3, 5, 8 if quick else 36)):
         cat = [g for g in L.gaussian_catalogue(d) if not g.get("chan")]
         act = [g for g in cat if not g["passive"]]
         pas = [g for g in cat if g["passive"]]
@@ -313,8 +314,9 @@ def part_gaussian_tangent(ctx, pq, quick, rng):
             if k not in seen:
                 seen.add(k)
                 recs.append(r)
-        if quick and len(recs) > 30:
-            recs = rng.sample(recs, 30)
+        cap = 30 if quick else 200
+        if len(recs) > cap:
+            recs = rng.sample(recs, cap)
         perm = GR.xxpp_to_xpxp_perm(d)
         for rec in recs:
             idx = [i - 1 for i in rec["hist"]]
